@@ -8,22 +8,22 @@ package criteria_mixing
 //@ spec mixed(r real, a real, b real) real = a * r + b * (1.0 - r)
 
 //@ func (*CriteriaMixingParams).validate
-//@   property C18 C20 C07
+//@   property C18 C20 C07 C09 C01
 //@   panics_iff [ratio] !(0.0 <= p.MixingRatio && p.MixingRatio <= 1.0)
 
 //@ func selectCriteriaToMix
-//@   property C18 C07 C20
+//@   property C18 C07 C20 C09 C01
 //@   fnparam generator ensures 0.0 <= result && result < 1.0
 //@   requires len(params.Criteria) >= 2
 //@   ensures [two_distinct] exists i int, j int :: 0 <= i && i < len(params.Criteria) && 0 <= j && j < len(params.Criteria) && i != j
 //@             && result.c1 == params.Criteria[i] && result.c2 == params.Criteria[j]
 
 //@ func (*criteriaToMix).criterion
-//@   property C18 C07 C20
+//@   property C18 C07 C20 C09 C01
 //@   ensures [gain_with_target_range] result.Type == model.Gain && result.ValuesRange == valRange
 
 //@ func (*criteriaToMix).mix
-//@   property C18 C07 C20
+//@   property C18 C07 C20 C09 C01
 //@   ensures [components] result.c1 != nil && result.c2 != nil && fresh(result) && fresh(result.result)
 //@   ensures [formula] forall a string :: a in result.c1 ==> a in result.c2 && a in result.result && result.result[a] == mixed(props.MixingRatio, result.c1[a], result.c2[a])
 //@   ensures [only] forall a string :: a in result.result ==> a in result.c1
@@ -40,13 +40,13 @@ package criteria_mixing
 //@   ensures  model.rescaled(c, v, cur, (tgt.Max - tgt.Min) / (cur.Max - cur.Min), tgt) <= tgt.Max
 
 //@ func referenceCriterion
-//@   property C18 C07 C20
+//@   property C18 C07 C20 C09 C01
 //@   requires model.distinctCriteria(params.Criteria) && len(params.Criteria) > 0
 //@   requires model.validParams(*listener, params.MethodParameters) && model.coversAll(*listener, params.MethodParameters, params.Criteria)
 //@   ensures [is_existing_criterion] result != nil && exists j int :: 0 <= j && j < len(params.Criteria) && *result == params.Criteria[j]
 
 //@ func updateAlternatives
-//@   property C18 C07 C20
+//@   property C18 C07 C20 C09 C01
 //@   ensures [shape] fresh(result) && fresh(*result) && len(*result) == len(allAlternatives)
 //@   ensures [extended] forall i int :: 0 <= i && i < len(allAlternatives) ==> model.extendedBy((*result)[i], allAlternatives[i], newCriterion.Id) && fresh((*result)[i].Criteria)
 
@@ -67,3 +67,10 @@ package criteria_mixing
 //@                (forall i int :: 0 <= i && i < len(current.ConsideredAlternatives) ==> model.extendedBy(result.DMP.ConsideredAlternatives[i], current.ConsideredAlternatives[i], result.DMP.Criteria[len(current.Criteria)].Id))
 //@             && (forall i int :: 0 <= i && i < len(current.NotConsideredAlternatives) ==> model.extendedBy(result.DMP.NotConsideredAlternatives[i], current.NotConsideredAlternatives[i], result.DMP.Criteria[len(current.Criteria)].Id))
 //@   ensures [parameters_extended] len(current.Criteria) >= 2 ==> model.coversAll(*listener, result.DMP.MethodParameters, result.DMP.Criteria) && model.validParams(*listener, result.DMP.MethodParameters)
+
+
+// parseProps: the ratio is the requested one (0.5 when omitted) and it is validated AFTER decoding
+//@ func parseProps
+//@   property C20 C18 C09 C01
+//@   ensures [requested_ratio_validated] fresh(result) && result.MixingRatio == (decoded_has(*props, "MixingRatio") ? decoded_real(*props, "MixingRatio") : 0.5)
+//@             && 0.0 <= result.MixingRatio && result.MixingRatio <= 1.0
